@@ -42,15 +42,19 @@ class CoroutinesAdapter:
                     else:
                         tgt = G[n - 1]
                         try:
-                            if op == 'kill':
+                            if op in ('kill', 'kill!'):
                                 env.proc.kill(env.gens[tgt])
-                            else:
+                                res = 'ok'
+                            elif op in ('start', 'start!'):
                                 env.prom[tgt] = env.proc.start(env.gens[tgt])
-                            res = 'ok'
+                                res = 'ok'
+                            else:
+                                res = env.proc.state(env.gens[tgt]).name
                         except ValueError:
                             res = 'ValueError'
                         env.log.append((g, i, res))
-                        yield None
+                        if not op.endswith('!'):
+                            yield None
                 env.log.append((g, len(script) + 1, 'return'))
                 return 100 + idx
             return body()
